@@ -2,6 +2,8 @@ import SSV.Proofs.Parsers
 import SSV.Proofs.ParsersMore
 import SSV.Proofs.ParsersRouter
 import SSV.Proofs.ParsersSocks2
+import SSV.Proofs.ParsersSocks3
+import SSV.Proofs.ParsersHttp
 /-
 C06 — No bytes from the network can crash the process.
 
@@ -12,7 +14,7 @@ Property theorems about the parser / handshake / routing models of `SSV.Model.Pa
   behaviours) the model of entry point `f` does not reach a Go run-time panic; the only thing that
   protects the slice/index operations are the code's own guards, with the constants regenerated from
   the source (`SSV.Gen.C06.*_lenGuard<i>`).
-* `shape_<F>` — Gen side conditions (finite, `decide`): the panic-relevant fingerprint of Go function
+* `shape_<F>` — Gen side conditions (finite, `rfl`): the panic-relevant fingerprint of Go function
   `F` (guards, index/slice expressions, array conversions, BigEndian calls, panics, contract-panicking
   method calls, in source order) extracted from the source NOW equals the one the model was written
   against. A changed offset / dropped guard re-opens the obligation.
@@ -103,6 +105,15 @@ theorem no_panic_socks5_server (auth : Bool) (check : Bytes → Bytes → Bool) 
     (finish : Option UInt8) (stream : Bytes) : s5Server auth check tcp udp tcpLocal bound finish stream ≠ .panic :=
   np_s5Server auth check tcp udp tcpLocal bound finish stream
 
+/-- the SOCKS5 CLIENT (stream client, UDP-ASSOCIATE client): method selection reply, authentication status,
+request reply with its bound address — for every byte stream a (hostile) server returns. `enc` is the
+encoded target address the client writes into the scratch buffer first (at most `MaxAddrLen` bytes, which
+`conn.AddrFromDomainPort`'s 255-byte limit guarantees). -/
+theorem no_panic_socks5_client (auth : Bool) (authMsg : Bytes) (cmd : UInt8) (enc : Bytes)
+    (henc : enc.length ≤ Gen.C06.MaxAddrLen) (stream : Bytes) : s5Client auth authMsg cmd enc stream ≠ .panic :=
+  np_s5Client auth authMsg cmd enc henc stream
+example : ([1, 0, 0, 0, 0, 0, 0] : Bytes).length ≤ Gen.C06.MaxAddrLen := by decide
+
 /-! ### direct / none / SOCKS5 packet unpackers -/
 
 theorem no_panic_noneServerUnpack (b : Bytes) (ps pl : Nat) (hb : ps + pl ≤ b.length) : noneServerUnpack b ps pl ≠ .panic :=
@@ -113,6 +124,25 @@ theorem no_panic_socks5ServerUnpack (b : Bytes) (ps pl : Nat) (hb : ps + pl ≤ 
   np_socks5ServerUnpack b ps pl hb
 theorem no_panic_socks5ClientUnpack (fs : Bool) (b : Bytes) (ps pl : Nat) (hb : ps + pl ≤ b.length) :
     socks5ClientUnpack fs b ps pl ≠ .panic := np_socks5ClientUnpack fs b ps pl hb
+
+/-! ### ss2022 stream chunks after the handshake; the HTTP proxy's own string logic -/
+
+/-- `ShadowStreamConn.read`: for every stream, every AEAD behaviour and every advertised chunk length, given a
+buffer of capacity `streamReadMinBufferSize` (all call sites: `Read`, `WriteTo`, `writeToShadowStreamConn`) -/
+theorem no_panic_streamRead (cap : Nat) (hcap : Gen.C06.streamReadMinBufferSize ≤ cap) (openChunk : Bytes → Option Bytes)
+    (stream : Bytes) : streamRead cap openChunk stream ≠ .panic := np_streamRead cap hcap openChunk stream
+/-- the call site with the tightest buffer: `writeBuf[2+tagSize : 2+tagSize]` of a `streamWriteBufferSize` buffer -/
+theorem streamRead_callsite_cap : Gen.C06.streamReadMinBufferSize ≤ Gen.C06.streamWriteBufferSize - (2 + Gen.C06.tagSize) := by decide
+/-- the largest chunk fits: `streamMaxPayloadSize + tagSize ≤ streamReadMinBufferSize`, and a u16 length cannot exceed it -/
+theorem streamRead_u16_fits : 65535 ≤ Gen.C06.streamMaxPayloadSize ∧ Gen.C06.streamMaxPayloadSize + Gen.C06.tagSize ≤ Gen.C06.streamReadMinBufferSize := by decide
+
+/-- `hostHeaderToAddr` for every Host value (`netip.ParseAddr`, `conn.ParseAddr` are total parameters) -/
+theorem no_panic_hostHeaderToAddr (parseIP : Bytes → Option (Bool × Bytes)) (parseAddr : Bytes → Option Addr) (host : Bytes) :
+    hostHeaderToAddr parseIP parseAddr host ≠ .panic := np_hostHeaderToAddr parseIP parseAddr host
+example : hostHeaderToAddr (fun _ => none) (fun _ => none) [91, 58, 93] = .ok (.dom [58] 80) := by decide
+
+/-- the `Proxy-Authorization: Basic ` prefix test for every header value -/
+theorem no_panic_basicAuthToken (creds : Bytes) : basicAuthToken creds ≠ .panic := np_basicAuthToken creds
 
 /-! ### everything computed afterwards: routing on the wire-derived address (finding F3) -/
 
@@ -161,166 +191,166 @@ theorem direct_targetonly_domain_panics :
 /-! ### Gen side conditions: the source still has the shape the model mirrors -/
 
 theorem shape_AddrPortFromSlice : Gen.C06.AddrPortFromSlice_shape =
-    ["if len(b) < 1+4+2 => return", "b[0]", "conv (*[4]byte)", "b[1:]", "call Uint16", "b[1+4:]", "if len(b) < 1+16+2 => return", "b[0]", "conv (*[16]byte)", "b[1:]", "call Uint16", "b[1+16:]", "b[0]"] := by decide
+    ["if len(b) < 1+4+2 => return", "b[0]", "conv (*[4]byte)", "b[1:]", "call Uint16", "b[1+4:]", "if len(b) < 1+16+2 => return", "b[0]", "conv (*[16]byte)", "b[1:]", "call Uint16", "b[1+16:]", "b[0]"] := rfl
 
 theorem shape_ConnAddrFromSlice : Gen.C06.ConnAddrFromSlice_shape =
-    ["if len(b) < 2 => return", "b[0]", "b[1]", "if len(b) < portEnd => return", "b[0]", "b[2:domainEnd]", "call Uint16", "b[domainEnd:]", "if len(b) < 1+4+2 => return", "b[0]", "conv (*[4]byte)", "b[1:]", "call Uint16", "b[1+4:]", "if len(b) < 1+16+2 => return", "b[0]", "conv (*[16]byte)", "b[1:]", "call Uint16", "b[1+16:]", "b[0]"] := by decide
+    ["if len(b) < 2 => return", "b[0]", "b[1]", "if len(b) < portEnd => return", "b[0]", "b[2:domainEnd]", "call Uint16", "b[domainEnd:]", "if len(b) < 1+4+2 => return", "b[0]", "conv (*[4]byte)", "b[1:]", "call Uint16", "b[1+4:]", "if len(b) < 1+16+2 => return", "b[0]", "conv (*[16]byte)", "b[1:]", "call Uint16", "b[1+16:]", "b[0]"] := rfl
 
 theorem shape_DomainCacheConnAddrFromSlice : Gen.C06.DomainCacheConnAddrFromSlice_shape =
-    ["if len(b) < 2 => return", "b[0]", "b[1]", "if len(b) < portEnd => return", "b[0]", "b[2:domainEnd]", "call Uint16", "b[domainEnd:]", "if len(b) < 1+4+2 => return", "b[0]", "conv (*[4]byte)", "b[1 : 1+4]", "call Uint16", "b[1+4:]", "if len(b) < 1+16+2 => return", "b[0]", "conv (*[16]byte)", "b[1 : 1+16]", "call Uint16", "b[1+16:]", "b[0]"] := by decide
+    ["if len(b) < 2 => return", "b[0]", "b[1]", "if len(b) < portEnd => return", "b[0]", "b[2:domainEnd]", "call Uint16", "b[domainEnd:]", "if len(b) < 1+4+2 => return", "b[0]", "conv (*[4]byte)", "b[1 : 1+4]", "call Uint16", "b[1+4:]", "if len(b) < 1+16+2 => return", "b[0]", "conv (*[16]byte)", "b[1 : 1+16]", "call Uint16", "b[1+16:]", "b[0]"] := rfl
 
 theorem shape_AppendFromReader : Gen.C06.AppendFromReader_shape =
-    ["slices.Grow(b, 2)[:bLen+2]", "b[bLen:]", "readBuf[0]", "readBuf[1]", "readBuf[0]", "slices.Grow(b, readBufSize)[:bLen+readBufSize]", "b[bLen:]"] := by decide
+    ["slices.Grow(b, 2)[:bLen+2]", "b[bLen:]", "readBuf[0]", "readBuf[1]", "readBuf[0]", "slices.Grow(b, readBufSize)[:bLen+readBufSize]", "b[bLen:]"] := rfl
 
 theorem shape_ConnAddrFromReader : Gen.C06.ConnAddrFromReader_shape =
-    ["b[0]", "b[1]", "call unsafe.String", "call unsafe.SliceData", "b[1]", "call Uint16", "b1[b[1]:]", "b[1]", "b1[0]", "b[1]", "b1[1:]", "conv (*[4]byte)", "call Uint16", "b1[4:]", "b1[0]", "b[1]", "b1[1:]", "conv (*[16]byte)", "call Uint16", "b1[16:]", "b[0]"] := by decide
+    ["b[0]", "b[1]", "call unsafe.String", "call unsafe.SliceData", "b[1]", "call Uint16", "b1[b[1]:]", "b[1]", "b1[0]", "b[1]", "b1[1:]", "conv (*[4]byte)", "call Uint16", "b1[4:]", "b1[0]", "b[1]", "b1[1:]", "conv (*[16]byte)", "call Uint16", "b1[16:]", "b[0]"] := rfl
 
 theorem shape_AddrFromDomainPort : Gen.C06.AddrFromDomainPort_shape =
-    ["if len(domain) == 0 || len(domain) > 255 => return", "call unsafe.StringData"] := by decide
+    ["if len(domain) == 0 || len(domain) > 255 => return", "call unsafe.StringData"] := rfl
 
 theorem shape_AddrIP : Gen.C06.AddrIP_shape =
-    ["panic"] := by decide
+    ["panic"] := rfl
 
 theorem shape_AddrDomain : Gen.C06.AddrDomain_shape =
-    ["panic"] := by decide
+    ["panic"] := rfl
 
 theorem shape_AddrIPPort : Gen.C06.AddrIPPort_shape =
-    ["panic"] := by decide
+    ["panic"] := rfl
 
 theorem shape_ValidateUnixEpochTimestamp : Gen.C06.ValidateUnixEpochTimestamp_shape =
-    ["call Uint64", "if diff < -MaxEpochDiff || diff > MaxEpochDiff => return"] := by decide
+    ["call Uint64", "if diff < -MaxEpochDiff || diff > MaxEpochDiff => return"] := rfl
 
 theorem shape_ParseTCPRequestFixedLengthHeader : Gen.C06.ParseTCPRequestFixedLengthHeader_shape =
-    ["b[0]", "b[0]", "b[1:]", "call Uint16", "b[1+8:]"] := by decide
+    ["b[0]", "b[0]", "b[1:]", "call Uint16", "b[1+8:]"] := rfl
 
 theorem shape_ParseTCPRequestVariableLengthHeader : Gen.C06.ParseTCPRequestVariableLengthHeader_shape =
-    ["b[n:]", "if len(b) <= 2 => return", "call Uint16", "if 2+paddingLen > len(b) => return", "b[2+paddingLen:]"] := by decide
+    ["b[n:]", "if len(b) <= 2 => return", "call Uint16", "if 2+paddingLen > len(b) => return", "b[2+paddingLen:]"] := rfl
 
 theorem shape_ParseTCPResponseHeader : Gen.C06.ParseTCPResponseHeader_shape =
-    ["b[0]", "b[0]", "b[1 : 1+8]", "b[1+8 : 1+8+len(requestSalt)]", "call Uint16", "b[1+8+len(requestSalt):]"] := by decide
+    ["b[0]", "b[0]", "b[1 : 1+8]", "b[1+8 : 1+8+len(requestSalt)]", "call Uint16", "b[1+8+len(requestSalt):]"] := rfl
 
 theorem shape_ParseUDPClientMessageHeader : Gen.C06.ParseUDPClientMessageHeader_shape =
-    ["if len(b) < UDPClientMessageHeaderFixedLength => return", "b[0]", "b[0]", "b[1 : 1+8]", "call Uint16", "b[1+8:]", "if payloadStart > len(b) => return", "b[payloadStart:]"] := by decide
+    ["if len(b) < UDPClientMessageHeaderFixedLength => return", "b[0]", "b[0]", "b[1 : 1+8]", "call Uint16", "b[1+8:]", "if payloadStart > len(b) => return", "b[payloadStart:]"] := rfl
 
 theorem shape_ParseUDPServerMessageHeader : Gen.C06.ParseUDPServerMessageHeader_shape =
-    ["if len(b) < UDPServerMessageHeaderFixedLength => return", "b[0]", "b[0]", "b[1 : 1+8]", "call Uint64", "b[1+8:]", "call Uint16", "b[1+8+8:]", "if payloadStart > len(b) => return", "b[payloadStart:]"] := by decide
+    ["if len(b) < UDPServerMessageHeaderFixedLength => return", "b[0]", "b[0]", "b[1 : 1+8]", "call Uint64", "b[1+8:]", "call Uint16", "b[1+8+8:]", "if payloadStart > len(b) => return", "b[payloadStart:]"] := rfl
 
 theorem shape_UDPServerSessionInfo : Gen.C06.UDPServerSessionInfo_shape =
-    ["if len(b) < UDPSeparateHeaderLength => return", "call Uint64"] := by decide
+    ["if len(b) < UDPSeparateHeaderLength => return", "call Uint64"] := rfl
 
 theorem shape_UDPServerNewUnpacker : Gen.C06.UDPServerNewUnpacker_shape =
-    ["if len(b) < nonAEADHeaderLen => return", "b[:UDPSeparateHeaderLength]", "b[UDPSeparateHeaderLength:nonAEADHeaderLen]", "conv (*[IdentityHeaderLength]byte)", "b[:8]"] := by decide
+    ["if len(b) < nonAEADHeaderLen => return", "b[:UDPSeparateHeaderLength]", "b[UDPSeparateHeaderLength:nonAEADHeaderLen]", "conv (*[IdentityHeaderLength]byte)", "b[:8]"] := rfl
 
 theorem shape_ShadowPacketServerUnpack : Gen.C06.ShadowPacketServerUnpack_shape =
-    ["if packetLen < p.nonAEADHeaderLen+p.aead.Overhead() => return", "b[packetStart : packetStart+UDPSeparateHeaderLength]", "separateHeader[4:16]", "b[messageHeaderStart : packetStart+packetLen]", "call Uint64", "separateHeader[8:]", "ciphertext[:0]", "call .MustAdd"] := by decide
+    ["if packetLen < p.nonAEADHeaderLen+p.aead.Overhead() => return", "b[packetStart : packetStart+UDPSeparateHeaderLength]", "separateHeader[4:16]", "b[messageHeaderStart : packetStart+packetLen]", "call Uint64", "separateHeader[8:]", "ciphertext[:0]", "call .MustAdd"] := rfl
 
 theorem shape_ShadowPacketClientUnpack : Gen.C06.ShadowPacketClientUnpack_shape =
-    ["if packetLen < UDPSeparateHeaderLength+16 => return", "b[packetStart:messageHeaderStart]", "separateHeader[4:16]", "b[messageHeaderStart : packetStart+packetLen]", "call Uint64", "call Uint64", "separateHeader[8:]", "separateHeader[:8]", "ciphertext[:0]", "call .MustAdd"] := by decide
+    ["if packetLen < UDPSeparateHeaderLength+16 => return", "b[packetStart:messageHeaderStart]", "separateHeader[4:16]", "b[messageHeaderStart : packetStart+packetLen]", "call Uint64", "call Uint64", "separateHeader[8:]", "separateHeader[:8]", "ciphertext[:0]", "call .MustAdd"] := rfl
 
 theorem shape_DirectServerPack : Gen.C06.DirectServerPack_shape =
-    ["if packetLen > maxPacketLen", "call .IPPort"] := by decide
+    ["if packetLen > maxPacketLen", "call .IPPort"] := rfl
 
 theorem shape_NoneClientUnpack : Gen.C06.NoneClientUnpack_shape =
-    ["b[packetStart : packetStart+packetLen]"] := by decide
+    ["b[packetStart : packetStart+packetLen]"] := rfl
 
 theorem shape_NoneServerUnpack : Gen.C06.NoneServerUnpack_shape =
-    ["b[packetStart : packetStart+packetLen]"] := by decide
+    ["b[packetStart : packetStart+packetLen]"] := rfl
 
 theorem shape_Socks5ClientUnpack : Gen.C06.Socks5ClientUnpack_shape =
-    ["if packetLen < 3 => return", "b[packetStart : packetStart+packetLen]", "pkt[3:]"] := by decide
+    ["if packetLen < 3 => return", "b[packetStart : packetStart+packetLen]", "pkt[3:]"] := rfl
 
 theorem shape_Socks5ServerUnpack : Gen.C06.Socks5ServerUnpack_shape =
-    ["if packetLen < 3 => return", "b[packetStart : packetStart+packetLen]", "pkt[3:]"] := by decide
+    ["if packetLen < 3 => return", "b[packetStart : packetStart+packetLen]", "pkt[3:]"] := rfl
 
 theorem shape_ValidatePacketHeader : Gen.C06.ValidatePacketHeader_shape =
-    ["b[2]"] := by decide
+    ["b[2]"] := rfl
 
 theorem shape_PortSetContains : Gen.C06.PortSetContains_shape =
-    ["s.blocks[s.blockIndex(p)]"] := by decide
+    ["s.blocks[s.blockIndex(p)]"] := rfl
 
 theorem shape_panicOnZeroPort : Gen.C06.panicOnZeroPort_shape =
-    ["panic"] := by decide
+    ["panic"] := rfl
 
 theorem shape_PortRangeSetContains : Gen.C06.PortRangeSetContains_shape =
-    ["s.ranges[h]", "s.ranges[h]"] := by decide
+    ["s.ranges[h]", "s.ranges[h]"] := rfl
 
 theorem shape_SourcePortMeet : Gen.C06.SourcePortMeet_shape =
-    [] := by decide
+    [] := rfl
 
 theorem shape_SourcePortRangeSetMeet : Gen.C06.SourcePortRangeSetMeet_shape =
-    ["call .Contains"] := by decide
+    ["call .Contains"] := rfl
 
 theorem shape_SourcePortSetMeet : Gen.C06.SourcePortSetMeet_shape =
-    ["call .Contains"] := by decide
+    ["call .Contains"] := rfl
 
 theorem shape_DestPortMeet : Gen.C06.DestPortMeet_shape =
-    [] := by decide
+    [] := rfl
 
 theorem shape_DestPortRangeSetMeet : Gen.C06.DestPortRangeSetMeet_shape =
-    ["call .Contains"] := by decide
+    ["call .Contains"] := rfl
 
 theorem shape_DestPortSetMeet : Gen.C06.DestPortSetMeet_shape =
-    ["call .Contains"] := by decide
+    ["call .Contains"] := rfl
 
 theorem shape_DestDomainMeet : Gen.C06.DestDomainMeet_shape =
-    ["call .Domain"] := by decide
+    ["call .Domain"] := rfl
 
 theorem shape_DestIPMeet : Gen.C06.DestIPMeet_shape =
-    ["call .Contains", "call .IP"] := by decide
+    ["call .Contains", "call .IP"] := rfl
 
 theorem shape_DestResolvedIPMeet : Gen.C06.DestResolvedIPMeet_shape =
-    ["call .Contains", "call .IP", "call .Domain"] := by decide
+    ["call .Contains", "call .IP", "call .Domain"] := rfl
 
 theorem shape_RouterMatch : Gen.C06.RouterMatch_shape =
-    ["r.routes[i]", "r.routes[i]", "panic"] := by decide
+    ["r.routes[i]", "r.routes[i]", "panic"] := rfl
 
 theorem shape_RouteMatch : Gen.C06.RouteMatch_shape =
-    [] := by decide
+    [] := rfl
 
 theorem shape_serverHandleMethodSelection : Gen.C06.serverHandleMethodSelection_shape =
-    ["if len(b) < 1+1+255 => return", "panic", "b[:3]", "b[0]", "b[0]", "b[1]", "b[2]", "b[3 : 3+nmethods-1]", "b[2 : 2+nmethods]", "b[1]", "b[:2]", "b[1]", "b[:2]"] := by decide
+    ["if len(b) < 1+1+255 => return", "panic", "b[:3]", "b[0]", "b[0]", "b[1]", "b[2]", "b[3 : 3+nmethods-1]", "b[2 : 2+nmethods]", "b[1]", "b[:2]", "b[1]", "b[:2]"] := rfl
 
 theorem shape_serverHandleUsernamePassword : Gen.C06.serverHandleUsernamePassword_shape =
-    ["if len(b) < 1+1+255+1 => return", "panic", "b[:4]", "b[0]", "b[0]", "b[1]", "if ulen > 1", "b[4 : 4+ulen-1]", "b[2:plenIndex]", "b[plenIndex]", "b[2 : 2+plen]", "b[1]", "b[:2]"] := by decide
+    ["if len(b) < 1+1+255+1 => return", "panic", "b[:4]", "b[0]", "b[0]", "b[1]", "if ulen > 1", "b[4 : 4+ulen-1]", "b[2:plenIndex]", "b[plenIndex]", "b[2 : 2+plen]", "b[1]", "b[:2]"] := rfl
 
 theorem shape_serverHandleRequest : Gen.C06.serverHandleRequest_shape =
-    ["if len(b) < 3+MaxAddrLen => return", "panic", "b[:5]", "b[0]", "b[0]", "b[3:3]", "b[3:5]", "b[1]", "b[1]", "b[:3]", "b[:1]"] := by decide
+    ["if len(b) < 3+MaxAddrLen => return", "panic", "b[:5]", "b[0]", "b[0]", "b[3:3]", "b[3:5]", "b[1]", "b[1]", "b[:3]", "b[:1]"] := rfl
 
 theorem shape_replyWithStatus : Gen.C06.replyWithStatus_shape =
-    ["b[:replyLen]", "reply[0]", "reply[1]", "reply[2]", "conv (*[IPv4AddrLen]byte)", "reply[3:]"] := by decide
+    ["b[:replyLen]", "reply[0]", "reply[1]", "reply[2]", "conv (*[IPv4AddrLen]byte)", "reply[3:]"] := rfl
 
 /-! ### Gen side conditions for functions that are fuzzed but NOT modelled: their panic-relevant fingerprint
 is the one that was read and fuzzed (a change re-opens the obligation; no no-panic theorem is claimed for them) -/
 
-theorem audited_shape_hostHeaderToAddr : Gen.C06.hostHeaderToAddr_shape =
-    ["host[0]", "host[len(host)-1]", "host[1 : len(host)-1]"] := by decide
+theorem shape_hostHeaderToAddr : Gen.C06.hostHeaderToAddr_shape =
+    ["host[0]", "host[len(host)-1]", "host[1 : len(host)-1]"] := rfl
 
-theorem audited_shape_serverHandleBasicAuth : Gen.C06.serverHandleBasicAuth_shape =
-    ["header[\"Proxy-Authorization\"]", "if len(creds) > len(prefix) && (creds[0] == 'B' || creds[0] == 'b') && (creds[1] == 'a' || creds[1] == 'A') && (creds[2] == 's' || creds[2] == 'S') && (creds[3] == 'i' || creds[3] == 'I') && (creds[4] == 'c' || creds[4] == 'C') && creds[5] == ' ' => return", "creds[0]", "creds[0]", "creds[1]", "creds[1]", "creds[2]", "creds[2]", "creds[3]", "creds[3]", "creds[4]", "creds[4]", "creds[5]", "creds[len(prefix):]"] := by decide
+theorem shape_serverHandleBasicAuth : Gen.C06.serverHandleBasicAuth_shape =
+    ["header[\"Proxy-Authorization\"]", "if len(creds) > len(prefix) && (creds[0] == 'B' || creds[0] == 'b') && (creds[1] == 'a' || creds[1] == 'A') && (creds[2] == 's' || creds[2] == 'S') && (creds[3] == 'i' || creds[3] == 'I') && (creds[4] == 'c' || creds[4] == 'C') && creds[5] == ' ' => return", "creds[0]", "creds[0]", "creds[1]", "creds[1]", "creds[2]", "creds[2]", "creds[3]", "creds[3]", "creds[4]", "creds[4]", "creds[5]", "creds[len(prefix):]"] := rfl
 
-theorem audited_shape_ShadowStreamConnRead : Gen.C06.ShadowStreamConnRead_shape =
-    ["if cap(b) < streamReadMinBufferSize => return", "panic", "b[:2+tagSize]", "call Uint16", "b[:length+tagSize]"] := by decide
+theorem shape_ShadowStreamConnRead : Gen.C06.ShadowStreamConnRead_shape =
+    ["if cap(b) < streamReadMinBufferSize => return", "panic", "b[:2+tagSize]", "call Uint16", "b[:length+tagSize]"] := rfl
 
 theorem audited_shape_StreamServerHandleStream : Gen.C06.StreamServerHandleStream_shape =
-    ["if bufferLen <= cap(writeBuf)", "writeBuf[:bufferLen]", "b[:reservedStart]", "if n > 0 && s.unsafeFallbackAddr.IsValid() => return", "readBuf[:n]", "b[:urspLen]", "b[urspLen:identityHeaderStart]", "b[fixedLengthHeaderStart:reservedStart]", "b[reservedStart:]", "b[identityHeaderStart:fixedLengthHeaderStart]", "conv [IdentityHeaderLength]byte", "if bufferLen <= cap(writeBuf)", "writeBuf[:bufferLen]"] := by decide
+    ["if bufferLen <= cap(writeBuf)", "writeBuf[:bufferLen]", "b[:reservedStart]", "if n > 0 && s.unsafeFallbackAddr.IsValid() => return", "readBuf[:n]", "b[:urspLen]", "b[urspLen:identityHeaderStart]", "b[fixedLengthHeaderStart:reservedStart]", "b[reservedStart:]", "b[identityHeaderStart:fixedLengthHeaderStart]", "conv [IdentityHeaderLength]byte", "if bufferLen <= cap(writeBuf)", "writeBuf[:bufferLen]"] := rfl
 
 theorem audited_shape_ShadowStreamClientInitRead : Gen.C06.ShadowStreamClientInitRead_shape =
-    ["b[:bufferLen]", "c.ShadowStreamConn.getReadBuf()[:bufferLen]", "hb[:urspLen]", "hb[urspLen:fixedLengthHeaderStart]", "hb[fixedLengthHeaderStart:]", "c.requestSalt[:c.requestSaltLen]"] := by decide
+    ["b[:bufferLen]", "c.ShadowStreamConn.getReadBuf()[:bufferLen]", "hb[:urspLen]", "hb[urspLen:fixedLengthHeaderStart]", "hb[fixedLengthHeaderStart:]", "c.requestSalt[:c.requestSaltLen]"] := rfl
 
 theorem audited_shape_readOnceExpectFull : Gen.C06.readOnceExpectFull_shape =
-    ["if err == io.EOF && 0 < n && n < len(b) => return", "if n < len(b) => return"] := by decide
+    ["if err == io.EOF && 0 < n && n < len(b) => return", "if n < len(b) => return"] := rfl
 
-theorem audited_shape_clientNegotiateAuthMethod : Gen.C06.clientNegotiateAuthMethod_shape =
-    ["if len(b) < 3 => return", "panic", "b[0]", "b[1]", "b[2]", "b[:3]", "b[:2]", "b[0]", "b[0]", "b[1]", "b[1]"] := by decide
+theorem shape_clientNegotiateAuthMethod : Gen.C06.clientNegotiateAuthMethod_shape =
+    ["if len(b) < 3 => return", "panic", "b[0]", "b[1]", "b[2]", "b[:3]", "b[:2]", "b[0]", "b[0]", "b[1]", "b[1]"] := rfl
 
-theorem audited_shape_clientDoUsernamePasswordAuth : Gen.C06.clientDoUsernamePasswordAuth_shape =
-    ["if len(b) < 2 => return", "panic", "b[:2]", "b[0]", "b[0]", "b[1]"] := by decide
+theorem shape_clientDoUsernamePasswordAuth : Gen.C06.clientDoUsernamePasswordAuth_shape =
+    ["if len(b) < 2 => return", "panic", "b[:2]", "b[0]", "b[0]", "b[1]"] := rfl
 
-theorem audited_shape_clientDoRequest : Gen.C06.clientDoRequest_shape =
-    ["if len(b) < 3+MaxAddrLen => return", "panic", "b[0]", "b[1]", "b[2]", "b[3:]", "b[:3+n]", "b[:5]", "b[0]", "b[0]", "b[3:3]", "b[3:5]", "b[1]", "b[1]"] := by decide
+theorem shape_clientDoRequest : Gen.C06.clientDoRequest_shape =
+    ["if len(b) < 3+MaxAddrLen => return", "panic", "b[0]", "b[1]", "b[2]", "b[3:]", "b[:3+n]", "b[:5]", "b[0]", "b[0]", "b[3:3]", "b[3:5]", "b[1]", "b[1]"] := rfl
 
 theorem audited_shape_ParseSessionIDAndPacketID : Gen.C06.ParseSessionIDAndPacketID_shape =
-    ["call Uint64", "call Uint64", "b[8:]"] := by decide
+    ["call Uint64", "call Uint64", "b[8:]"] := rfl
 
 end SSV.C06
 
@@ -342,10 +372,16 @@ end SSV.C06
 #print axioms SSV.C06.no_panic_udpClientUnpack
 #print axioms SSV.C06.no_panic_udpServerReceive
 #print axioms SSV.C06.no_panic_socks5_server
+#print axioms SSV.C06.no_panic_socks5_client
 #print axioms SSV.C06.no_panic_noneServerUnpack
 #print axioms SSV.C06.no_panic_noneClientUnpack
 #print axioms SSV.C06.no_panic_socks5ServerUnpack
 #print axioms SSV.C06.no_panic_socks5ClientUnpack
+#print axioms SSV.C06.no_panic_streamRead
+#print axioms SSV.C06.streamRead_callsite_cap
+#print axioms SSV.C06.streamRead_u16_fits
+#print axioms SSV.C06.no_panic_hostHeaderToAddr
+#print axioms SSV.C06.no_panic_basicAuthToken
 #print axioms SSV.C06.no_panic_router_match
 #print axioms SSV.C06.no_panic_wire_to_route
 #print axioms SSV.C06.router_match_unguarded_panics
@@ -394,13 +430,13 @@ end SSV.C06
 #print axioms SSV.C06.shape_serverHandleUsernamePassword
 #print axioms SSV.C06.shape_serverHandleRequest
 #print axioms SSV.C06.shape_replyWithStatus
-#print axioms SSV.C06.audited_shape_hostHeaderToAddr
-#print axioms SSV.C06.audited_shape_serverHandleBasicAuth
-#print axioms SSV.C06.audited_shape_ShadowStreamConnRead
+#print axioms SSV.C06.shape_hostHeaderToAddr
+#print axioms SSV.C06.shape_serverHandleBasicAuth
+#print axioms SSV.C06.shape_ShadowStreamConnRead
 #print axioms SSV.C06.audited_shape_StreamServerHandleStream
 #print axioms SSV.C06.audited_shape_ShadowStreamClientInitRead
 #print axioms SSV.C06.audited_shape_readOnceExpectFull
-#print axioms SSV.C06.audited_shape_clientNegotiateAuthMethod
-#print axioms SSV.C06.audited_shape_clientDoUsernamePasswordAuth
-#print axioms SSV.C06.audited_shape_clientDoRequest
+#print axioms SSV.C06.shape_clientNegotiateAuthMethod
+#print axioms SSV.C06.shape_clientDoUsernamePasswordAuth
+#print axioms SSV.C06.shape_clientDoRequest
 #print axioms SSV.C06.audited_shape_ParseSessionIDAndPacketID
